@@ -64,6 +64,11 @@ func genSchema(t *rapid.T, allowBoolAndEnumResults bool) (string, []mdef, map[st
 	types := make([]tinfo, nTypes)
 	for i := range types {
 		n := fmt.Sprintf("T%c%d", 'A'+i, i)
+		if rapid.Bool().Draw(t, "plainname") {
+			// a capital and small letters, as most types of the shipped schemas (Null, Peer, Error): the constructor "named like
+			// its type" then differs from it by the case of the first letter only
+			n = fmt.Sprintf("%s%d", []string{"Alpha", "Box", "Null", "Peer", "Error", "Ty"}[i%6], i)
+		}
 		if rapid.IntRange(0, 2).Draw(t, "ns") == 0 {
 			n = rapid.SampledFrom([]string{"ns.", "messages.", "a1."}).Draw(t, "nsname") + n
 			feats["namespace"] = true
